@@ -6,6 +6,9 @@ package world
 
 import (
 	"crypto"
+	"crypto/dsa"
+	"encoding/asn1"
+	"math/big"
 	"crypto/rsa"
 	"crypto/x509"
 	"embed"
@@ -25,6 +28,7 @@ type KeyPair struct {
 	Cert    *x509.Certificate
 	Signer  crypto.Signer
 	RSA     *rsa.PrivateKey // nil for non-RSA keys
+	DSA     *dsa.PrivateKey // only for sp-dsa (a hand-assembled certificate: crypto/x509 parses DSA keys but cannot issue for them)
 }
 
 var (
@@ -60,6 +64,15 @@ func Key(name string) *KeyPair {
 			if err != nil {
 				panic(err)
 			}
+		case "DSA PRIVATE KEY":
+			var d struct {
+				Version       int
+				P, Q, G, Y, X *big.Int
+			}
+			if _, err := asn1.Unmarshal(blk.Bytes, &d); err != nil {
+				panic(err)
+			}
+			k.DSA = &dsa.PrivateKey{PublicKey: dsa.PublicKey{Parameters: dsa.Parameters{P: d.P, Q: d.Q, G: d.G}, Y: d.Y}, X: d.X}
 		case "PRIVATE KEY":
 			pk, err := x509.ParsePKCS8PrivateKey(blk.Bytes)
 			if err != nil {
